@@ -40,6 +40,8 @@ func checkC14(c *Check) {
 	ruleRawFlagPairing(c, p, "R14.7")
 	ruleBuffersRefetched(c, p, "R14.8", "Writer", "CompressingReader")
 	ruleContentHashDiscipline(c, p, "R14.9")
+	c.RuleDoc["R14.10"] = "ownership hand-off (= R02.5): a buffer given to a compression goroutine is replaced before the Writer writes into it again, so the block's bytes do not depend on the schedule"
+	ruleHandOff(c, p, "R14.10")
 	c.RuleDoc["R14.9"] = "content checksum fed in stream order only"
 	c.RuleDoc["R14.8"] = "the accumulation buffer (whose length is the block cut) is re-fetched from the current block size at frame start, so block boundaries do not depend on the object's history"
 }
@@ -515,6 +517,18 @@ func ruleDependentSequential(c *Check, p *Program, rule string) {
 			r, _ := reachAvoid(fn, nil, func(in ssa.Instruction) bool { return in == ci.(ssa.Instruction) }, func(in ssa.Instruction) bool { return in == ph })
 			c.Cond(!r, rule, "Reader.init#flags-parsed-first", p.InstrPos(ci), "the descriptor is parsed before the decode pipeline is chosen", "ParseHeaders dominates InitR", "InitR reachable before ParseHeaders")
 		}
+		// the independence flag that decides the fallback is the one of THIS frame: every read of it
+		// is preceded, on all paths, by the header parse (directly or inside a callee)
+		parses := func(in ssa.Instruction) bool {
+			cj, ok := in.(ssa.CallInstruction)
+			return ok && callReaches(cj, func(x ssa.CallInstruction) bool { return calleeIs(x, pkgStream, "Frame.ParseHeaders") })
+		}
+		readsFlag := func(in ssa.Instruction) bool {
+			cj, ok := in.(ssa.CallInstruction)
+			return ok && calleeIs(cj, pkgStream, "DescriptorFlags.BlockIndependence")
+		}
+		stale, _ := reachAvoid(fn, nil, readsFlag, parses)
+		c.Cond(!stale, rule, "Reader.init#flag-of-this-frame", p.Pos(fn.Pos()), "the BlockIndependence flag is read only after this frame's header has been parsed (a Reader reused through Reset would otherwise decide on the previous frame's flags)", "every path to the flag test passes the header parse", "the BlockIndependence flag is tested before the header of the current frame is parsed: after Reset the decision uses the previous frame's descriptor")
 	}
 }
 
@@ -851,6 +865,12 @@ func checkC18(c *Check) {
 		c.Cond(okInit && hdr, "R18.6", "CompressingReader.init#frame", p.Pos(in.Pos()), "the compressing reader builds a sequential, non-legacy frame and writes the header into its output adapter before any block", "InitW(out, 1, false); Descriptor.Write", fmt.Sprintf("InitW(…,1,false): %v; header written: %v", okInit, hdr))
 	}
 	c.RuleDoc["R18.7"] = "the output adapter is rewound before every error-free return that follows reset(p)"
+	ruleAdapterAccounting(c, p, "R18.11")
+	c.RuleDoc["R18.11"] = "byte accounting of the output adapter (bounds prover): Write adds exactly len(p) pending bytes, reset consumes exactly len(out) or none, clear leaves none; positions stay inside their slices"
+	ruleNoEmptyBlock(c, p, "R18.10", "CompressingReader")
+	c.RuleDoc["R18.10"] = "no empty data block is emitted by the compressing reader"
+	ruleNestedRearm(c, p, "R18.9")
+	c.RuleDoc["R18.9"] = "the overflow writer is re-initialised completely at the start of a stream: positions zeroed, overflow bytes dropped"
 	c.RuleDoc["R18.8"] = "the input buffer is re-fetched from the current block size at frame start"
 	ruleAdapterRewound(c, p, "R18.7")
 	ruleBuffersRefetched(c, p, "R18.8", "CompressingReader")
